@@ -136,6 +136,12 @@ def gen(ctx):
         for cut in range(len(gr)):
             cases.append(g.case_line("conn", rng.choice("ab"), 0, "eof", rng.choice([g.seg_whole, g.seg_bytes])(gr[:cut])))
             expect.append(["connect:ueof"])
+    # how the stream ended does not change when the application asks again: two further receives after the end, every third case
+    for i in range(0, len(cases), 3):
+        t = cases[i].split(" ")
+        if t[0] in ("recv", "conn") and t[2] == "0" and expect[i] and expect[i][-1] in ("eof", "ueof"):
+            cases.append(" ".join(t[:2] + ["2"] + t[3:]))
+            expect.append(expect[i] + [expect[i][-1]] * 2)
     return cases, expect
 
 
